@@ -177,9 +177,15 @@ pub fn listing_from_json(report: &serde_json::Value) -> Vec<ExpListed> {
                         attrs.insert(k.clone(), v.as_str().unwrap_or("").to_string());
                     }
                 }
+                // how an *unnamed* block is labelled is not part of any property
+                let name = if attrs.contains_key("name") {
+                    b.get("name").and_then(|n| n.as_str()).unwrap_or("").to_string()
+                } else {
+                    String::new()
+                };
                 out.push(ExpListed {
                     file: file.clone(),
-                    name: b.get("name").and_then(|n| n.as_str()).unwrap_or("").to_string(),
+                    name,
                     line: b.get("line").and_then(|n| n.as_u64()).unwrap_or(0) as usize,
                     attrs,
                     is_content_modified: b
